@@ -134,7 +134,9 @@ func ruleC04(w *World, r *Report) {
 	{
 		fn := w.FuncName(dnT)
 		gate := fmt.Sprintf("qer.dlStatus == %d", closed)
-		isDrops := func(t string) bool { return strings.HasSuffix(t, ".Drops(&far)") || strings.HasSuffix(t, ".Drops(far)") }
+		isDrops := func(t string) bool {
+			return strings.HasSuffix(t, ".Drops(&far)") || strings.HasSuffix(t, ".Drops(far)")
+		}
 		n := successPaths(dnT, func(p *Path, atoms []Atom) {
 			act := pathAction(dnT, p)
 			g, gp := atomTruth(atoms, gate)
